@@ -277,14 +277,14 @@ def split_cases(evs, marker="reset"):
     return cases
 
 
-def validate_cases(ctx, spec_dir, module, path, kind, cfg=None, libs=(), describe=None, timeout=900, _depth=0):
+def validate_cases(ctx, spec_dir, module, path, kind, cfg=None, libs=(), describe=None, timeout=900, _depth=0, marker="reset"):
     """Validate a multi-case trace (cases start with a `reset` event).  On rejection: isolate the case,
     re-validate it alone (a rejection must be reproducible), report it, then validate the remaining
     cases so that one rejection does not leave the rest unexamined.  Returns number of cases."""
     ok, rej, res = trace_validate(spec_dir, module, path, cfg=cfg, libs=libs, timeout=timeout)
     ctx.add_tlc(res)
     ctx.note_known_from_tlc(res)
-    cases = split_cases(read_ndjson(path))
+    cases = split_cases(read_ndjson(path), marker=marker)
     if _depth == 0:
         ctx.traces += len(cases)
     if ok:
@@ -316,11 +316,11 @@ def validate_cases(ctx, spec_dir, module, path, kind, cfg=None, libs=(), describ
         p2 = "%s.rest%d" % (path, _depth)
         write_ndjson(p2, rest)
         validate_cases(ctx, spec_dir, module, p2, kind, cfg=cfg, libs=libs, describe=describe, timeout=timeout,
-                       _depth=_depth + 1)
+                       _depth=_depth + 1, marker=marker)
     return len(cases)
 
 
-def expect_reject(ctx, spec_dir, module, path, mutate, what, cfg=None, libs=()):
+def expect_reject(ctx, spec_dir, module, path, mutate, what, cfg=None, libs=(), marker=None):
     """B3: a corrupted copy of a trace must be rejected, otherwise the binding is vacuous."""
     evs = read_ndjson(path)
     if not mutate(evs):
